@@ -46,6 +46,8 @@ def run(ctx):
     ctx.guard(literals, ctx)
     from . import sentential
     ctx.guard(sentential.rule, ctx)
+    from . import scope as _scope
+    ctx.guard(_scope.symbols_exact, ctx, 'C05-SYMBOLS')
     ctx.assume('name resolution (o_obj, s_sync, r_rel ... look-ups) succeeds: programs are well-formed and name-resolved')
     return ('Exhaustiveness of prebuild handlers against the grammar and of text generators against the kinds prebuild creates; '
             'schema type-check of every navigation in sourcegen.py; direction agreement of writer and reader on the three '
